@@ -488,7 +488,8 @@ Record InvO (own : nat -> nat) (s : atomic_state) (cs : list vv) : Prop := mkInv
   i_clen : forall t, t < length cs -> t < length (clk cs t);
   i_dead : forall a, at_cnt s <= a -> get_store s a = store_default;
   i_own : forall a, a < at_cnt s -> own a < length cs;
-  i_key1 : forall a, a < at_cnt s -> 1 <= hbk own s a;
+  (* the key is a real tick, except for a bottom store (created with the zero clock) *)
+  i_key1 : forall a, a < at_cnt s -> 1 <= hbk own s a \/ (forall q, vv_get (mo s a) q = 0);
   i_seen : forall a, a < at_cnt s ->
      nth_error (st_seen (get_store s a)) (own a) = Some (Some (hbk own s a));
   i_hbmo : forall a, a < at_cnt s -> K own s a a;
@@ -822,7 +823,8 @@ Section LoadPhase.
     { intros HM. destruct lp_jn as [_ Hq]. destruct (Hq (own a)) as [Heq|[g [Hg [Hle Heq]]]].
       - left. unfold K. lia.
       - destruct (lp_PS Hg) as [H0|[x [Hx [Hne [Hgx Hs]]]]].
-        + subst g. rewrite vv_new_get in Heq. pose proof (i_key1 HI Ha). lia.
+        + subst g. rewrite vv_new_get in Heq. destruct (i_key1 HI Ha) as [Hk1|Hz]; [lia|].
+          left. unfold K. pose proof (i_hbmo HI Ha) as Hkk. unfold K in Hkk. rewrite (Hz (own a)) in Hkk. lia.
         + right. exists x. subst g. repeat split; try assumption. unfold K. lia. }
     rewrite (lp_mo (lp_live7 Hb)) in HK.
     destruct (Nat.eqb_spec b idx) as [Heq|Hne].
@@ -864,6 +866,28 @@ Section LoadPhase.
       apply (lp_grow (lp_live7 Hb)).
   Qed.
 
+  Lemma vv_lt_zero : forall x b, (forall q, vv_get b q = 0) -> vv_lt x b = false.
+  Proof.
+    intros x b Hz. destruct (vv_lt x b) eqn:H; [|reflexivity].
+    apply vv_lt_spec in H. destruct H as [_ [i Hi]]. rewrite (Hz i) in Hi. lia.
+  Qed.
+
+  (* a bottom store stays a bottom store *)
+  Lemma lp_bottom : forall a, a < at_cnt s -> (forall q, vv_get (mo s a) q = 0) ->
+    forall q, vv_get (mo s' a) q = 0.
+  Proof.
+    intros a Ha Hz q. rewrite (lp_mo (lp_live7 Ha)).
+    destruct (Nat.eqb_spec a idx) as [Heq|Hne].
+    - subst a. destruct lp_jn as [_ Hq]. destruct (Hq q) as [Heq|[g [Hg [_ Heq]]]].
+      + rewrite Heq. apply Hz.
+      + destruct (lp_PS Hg) as [H0|[x [Hx [Hnx [Hgx Hs]]]]].
+        * subst g. rewrite Heq. apply vv_new_get.
+        * exfalso. apply (lp_seen_notK Hx Hnx Hs). unfold K.
+          pose proof (i_hbmo HI Hidx) as Hkk. unfold K in Hkk. rewrite (Hz (own idx)) in Hkk. lia.
+    - destruct (vv_eqb M (mo s idx)); [apply Hz|].
+      rewrite (@vv_lt_zero (mo s idx) (mo s a) Hz). apply Hz.
+  Qed.
+
   Lemma load_phase_inv : InvO own s' cs.
   Proof.
     destruct (loadpart_tr_frame s t c idx) as [Fc [Fm [Fum [Ful Fl]]]]. fold s' in Fc, Fm, Fum, Ful, Fl.
@@ -882,7 +906,8 @@ Section LoadPhase.
         rewrite vv_lt_new_false. reflexivity.
       + unfold get_store. apply nth_overflow. rewrite Fl, (i_len HI). exact H7.
     - intros a Ha. rewrite Fc in Ha. apply (i_own HI Ha).
-    - intros a Ha. rewrite Fc in Ha. rewrite (lp_hbk (lp_live7 Ha)). apply (i_key1 HI Ha).
+    - intros a Ha. rewrite Fc in Ha. rewrite (lp_hbk (lp_live7 Ha)).
+      destruct (i_key1 HI Ha) as [Hk1|Hz]; [left; exact Hk1 | right; apply (lp_bottom Ha Hz)].
     - intros a Ha. rewrite Fc in Ha. rewrite (lp_hbk (lp_live7 Ha)), (lp_seen (lp_live7 Ha)).
       destruct (Nat.eqb_spec a idx) as [Heq|_].
       + subst a. apply seen_touch_keeps. apply (i_seen HI Hidx).
@@ -1114,7 +1139,8 @@ Section StorePhase.
     destruct (Hq (own a)) as [Heq|[g [Hg [HgN Heq]]]].
     - apply (sp_seen_le Ha). apply (key_seen HI c Ha). lia.
     - destruct (sp_PT Hg) as [H0|[x [Hx Hgx]]].
-      + subst g. rewrite vv_new_get in Heq. pose proof (i_key1 HI Ha). lia.
+      + subst g. rewrite vv_new_get in Heq. destruct (i_key1 HI Ha) as [Hk1|Hz]; [lia|].
+        intros q. rewrite (Hz q). lia.
       + subst g. eapply vle_trans; [|exact HgN]. apply (i_star HI Ha Hx). unfold K. lia.
   Qed.
 
@@ -1168,8 +1194,8 @@ Section StorePhase.
       + rewrite (sp_own_old Hl). apply (i_own H2 Hl).
       + subst a. rewrite sp_own_n. unfold cs'. rewrite list_set_length. exact Ht.
     - intros a Ha. rewrite sp_cnt in Ha. destruct (sp_cases Ha) as [Hl|He].
-      + rewrite (sp_hbk_old Hl). apply (i_key1 HI Hl).
-      + subst a. rewrite sp_hbk_n. lia.
+      + rewrite (sp_hbk_old Hl), (sp_mo_old Hl). apply (i_key1 HI Hl).
+      + subst a. left. rewrite sp_hbk_n. lia.
     - intros a Ha. rewrite sp_cnt in Ha. destruct (sp_cases Ha) as [Hl|He].
       + rewrite (sp_hbk_old Hl), (sp_own_old Hl), (sp_old Hl). apply (i_seen HI Hl).
       + subst a. rewrite sp_hbk_n, sp_own_n, sp_getn. cbn [st_seen newst].
@@ -1619,7 +1645,7 @@ Proof.
     destruct a as [|[|[|[|[|[|[|a]]]]]]]; try lia; try reflexivity.
     unfold get_store. cbn. destruct a; reflexivity.
   - intros a Ha. rewrite repeat_length. lia.
-  - intros a Ha. rewrite (H0 a Ha). cbn. lia.
+  - intros a Ha. rewrite (H0 a Ha). left. cbn. lia.
   - intros a Ha. rewrite (H0 a Ha). reflexivity.
   - intros a Ha. rewrite (H0 a Ha). unfold K. cbn. lia.
   - intros a t Ha Ht. rewrite (H0 a Ha). rewrite (Hclk t Ht). apply le_n.
